@@ -86,11 +86,64 @@ PROPS = {
 # harness-name regex -> (functions encoded, bound)
 DESCR = [
     (r"_l0_(i8|byte|bool|i16|i32|i64|double|uuid)_(\w+)$",
-     lambda m: dict(fns="%s: write_%s / read_%s / %s_len (+ rw_ext, varint for compact)" % (proto(m.group(2)), m.group(1), m.group(1), m.group(1)),
+     lambda m: dict(fns="%s: write_%s / read_%s / %s_len (+ rw_ext; integer_encoding::VarInt and VarIntProcessor for compact)" % (proto(m.group(2)), m.group(1), m.group(1), m.group(1)),
                     bound="all values of the type; symbolic 2-byte tail; one value")),
     (r"_l0_(string|faststr|bytes|bytesvec)(\d)_(\w+)$",
      lambda m: dict(fns="%s: write/read/len of %s" % (proto(m.group(3)), m.group(1)),
                     bound="payload length exactly %s, content symbolic (ASCII for string APIs); symbolic 2-byte tail" % m.group(2))),
+    (r"_l1_(field_prev|field_prev_struct|field_first|boolfield|fieldfar)_(\w+)$",
+     lambda m: dict(fns="%s: write_struct_begin/field_begin/field_end/field_stop/struct_end, read_*, *_len twin" % proto(m.group(2)),
+                    bound="field ids symbolic over all i16 (previous id symbolic: compact delta context); wire type concrete per instance; bool value symbolic")),
+    (r"_l1_(list|list_bool|set|map|map_struct)_(\w+)$",
+     lambda m: dict(fns="%s: write/read/len of %s header" % (proto(m.group(2)), m.group(1)),
+                    bound="size symbolic 0..=2^31-1; element/key/value types concrete per instance")),
+    (r"_l1_msg\d_(\w+?)_(bin|le|unchecked)$",
+     lambda m: dict(fns="%s: write_message_begin/read_message_begin/message_begin_len" % proto(m.group(2)),
+                    bound="sequence id symbolic (all i32), name bytes symbolic ASCII of the stated length, message type %s" % m.group(1))),
+    (r"_l1_cmsgw", lambda m: dict(fns="TCompactOutputProtocol::write_message_begin / message_begin_len vs reference encoder", bound="sequence id all i32, name symbolic ASCII, message type concrete")),
+    (r"_l1_cmsgr(\d)", lambda m: dict(fns="TCompactInputProtocol::read_message_begin on reference-encoded bytes", bound="sequence-id varint of exactly %s bytes with symbolic payload bits; 2-byte symbolic name" % m.group(1))),
+    (r"_l1_type_tables", lambda m: dict(fns="TType::try_from(u8), TCompactType::try_from(u8), TType<->TCompactType, TMessageType::try_from", bound="all 256 byte values")),
+    (r"_l1_bool_any_byte_(\w+)$", lambda m: dict(fns="%s: read_bool" % proto(m.group(1)), bound="all 256 values of the bool byte")),
+    (r"_l1_compact_field_alt_forms", lambda m: dict(fns="TCompactInputProtocol::read_field_begin on reference-encoded headers", bound="last id 0..=32767, delta 1..=15, long or short form chosen symbolically")),
+    (r"_l2_(\w+)_then_(\w+?)_(bin|le|unchecked|compact)$",
+     lambda m: dict(fns="%s: typed write_*/read_*/*_len over value tree %s followed by %s (harness/src/skip.rs)" % (proto(m.group(3)), m.group(1), m.group(2)),
+                    bound="shapes concrete, all leaves symbolic, containers <= 2 elements, binaries <= 2 bytes; two values on one reader")),
+    (r"_linked_zero_copy_(\w+)$", lambda m: dict(fns="%s over &mut LinkedBytes: write_bytes with zero_copy on, LinkedBytes::insert" % proto(m.group(1)), bound="one 4096-byte payload (first/last byte symbolic) followed by one symbolic i8")),
+    (r"_linked_(\w+?)_(bin|le|unchecked|compact)$",
+     lambda m: dict(fns="%s: LinkedBytes writer vs BytesMut writer, same call sequence" % proto(m.group(2)),
+                    bound="struct{prev: i8; id: %s; after: i8} with three symbolic ids in (-8000, 8000) in arbitrary order, zero_copy flag symbolic" % m.group(1))),
+    (r"c0[24]_\w_gen_(\w+?)_(bin|le|unchecked|compact)$",
+     lambda m: dict(fns="emitted <t_basic::%s as Message>::{size, encode, decode} via %s" % (m.group(1), proto(m.group(2))),
+                    bound="all leaf values; presence of optionals and container sizes concrete per instance; strings <= 2 bytes")),
+    (r"c07_\w_written_(\w+?)_(bin|le|unchecked|compact)$",
+     lambda m: dict(fns="%s: read_field_begin + skip()" % proto(m.group(2)), bound="writer-produced value of shape %s with symbolic leaves, symbolic field id, symbolic 2-byte tail" % m.group(1))),
+    (r"c07_\w_depth(\d)_limit(\d+)_(\w+)$",
+     lambda m: dict(fns="%s: skip_till_depth" % proto(m.group(3)), bound="struct nested %s deep (concrete), depth budget %s" % (m.group(1), m.group(2)))),
+    (r"c07_\w_arbitrary_(\w+?)_(\d+)_(\w+)$",
+     lambda m: dict(fns="%s: skip_till_depth(%s, 1)" % (proto(m.group(3)), m.group(1)), bound="arbitrary buffer of exactly %s bytes" % m.group(2))),
+    (r"c07_\w_void_", lambda m: dict(fns="skip_till_depth(Void|Stop)", bound="arbitrary 4 bytes")),
+    (r"c08_\w_rec_(\w+)_pos(\d)_(\w+)$",
+     lambda m: dict(fns="emitted <t_evolve_r::Rec as Message>::decode (+ real skipper) via %s" % proto(m.group(3)),
+                    bound="reference-encoded: required field + record %s at position %s; payload bytes symbolic" % (m.group(1), m.group(2)))),
+    (r"c08_\w_required_absent_(\w+)_(\w+)$", lambda m: dict(fns="emitted Rec::decode", bound="only record %s present (required field absent)" % m.group(1))),
+    (r"c08_\w_union_(\w+)_(bin|le|unchecked)$", lambda m: dict(fns="emitted <t_evolve_r::Choice as Message>::decode via %s" % proto(m.group(2)), bound="union configuration %s; payloads symbolic" % m.group(1))),
+    (r"c09_\w_read_r_(\w+?)_(bin|le|compact)$",
+     lambda m: dict(fns="%s: read_%s" % (proto(m.group(2)), m.group(1)), bound="arbitrary buffer of symbolic length up to the per-reader bound (3..17 bytes)")),
+    (r"c10_\w_varint_arbitrary_(\d+)", lambda m: dict(fns="prost::encoding::decode_varint (+_slice, +_slow)", bound="arbitrary slice of symbolic length <= %s vs reference LEB128 decoder" % m.group(1))),
+    (r"c10_\w_arbitrary_d_(\w+)_(\d+)$", lambda m: dict(fns="prost decoder %s" % m.group(1), bound="arbitrary slice of symbolic length <= %s; wire type concrete" % m.group(2))),
+    (r"c10_\w_budget_(\w+)$", lambda m: dict(fns="prost::encoding %s merge / skip_field with DecodeContext::verif_with_budget(n)" % m.group(1), bound="every u32 recursion budget n; concrete 3-5 byte input")),
+    (r"c11_\w_(write_diff_bytesmut|write_diff_linked|read_diff|skip_diff)_(\w+)$",
+     lambda m: dict(fns="TBinaryUnsafe{Output,Input}Protocol vs binary::TBinaryProtocol: %s" % m.group(1), bound="shape %s, all leaves and the field id symbolic; exact-size output buffer" % m.group(2))),
+    (r"c0[56]_\w_varint_(\w+)$", lambda m: dict(fns="encode_varint / encoded_len_varint / decode_varint, chunk layout %s" % m.group(1), bound="all u64 values")),
+    (r"c0[56]_\w_key$", lambda m: dict(fns="encode_key / key_len / decode_key", bound="all tags 1..=2^29-1, all six wire types")),
+    (r"c0[56]_\w_(\w+?)_(tag11bit|anytag)$", lambda m: dict(fns="prost::encoding::%s::{encode, encoded_len, merge}" % m.group(1), bound="all values; tag %s" % ("1..=2047" if m.group(2) == "tag11bit" else "1..=2^29-1"))),
+    (r"c0[56]_\w_(string|faststr|bytes|vec)(\d)$", lambda m: dict(fns="prost::encoding::%s" % m.group(1), bound="payload of exactly %s symbolic bytes, tag 9" % m.group(2))),
+    (r"c0[56]_\w_rep_", lambda m: dict(fns="encode_repeated/encode_packed/merge_repeated/encoded_len_*", bound="2 symbolic elements, tag 7")),
+    (r"c0[56]_\w_dec_(\w+)_w$", lambda m: dict(fns="encode side of %s vs reference encoder (+ encoded_len)" % m.group(1), bound="all values")),
+    (r"c0[56]_\w_dec_(\w+)_r", lambda m: dict(fns="decode side of %s on reference-encoded bytes" % m.group(1), bound="concrete record layout and varint lengths, symbolic payload bits")),
+    (r"c0[56]_\w_gen_small_w", lambda m: dict(fns="emitted <p_scalars::Small as prost::Message>::{encode, encoded_len}", bound="all values of sint32 s and fixed32 f")),
+    (r"c0[56]_\w_gen_small_r", lambda m: dict(fns="emitted Small::decode on reference-encoded bytes", bound="both field orders; zigzag varint of the stated length with symbolic payload")),
+    (r"c18_\w_gen_(\w+?)_u_(\w+)$", lambda m: dict(fns="emitted prost Message::decode (merge loop, skip_field) for %s" % m.group(1), bound="reference-built concatenation with symbolic fixed-width payloads; unknown field kind %s between records" % m.group(2))),
 ]
 
 
